@@ -67,6 +67,7 @@ class Interp(OpsMixin, BuiltinsMixin):
         self.watch = {}
         self.stubs = {}
         self.no_decide = 0
+        self.visited = set()
         self.loop_stack = []
         self.dyn_syms = {}
         self.missing_modules = set()
@@ -843,6 +844,7 @@ class Interp(OpsMixin, BuiltinsMixin):
         if st is not None:
             return st(self, f, locs, node, frame)
         nf = Frame(self, f.module, func=f, locals_=locs, parent=f.closure)
+        self.visited.add(f.qualname)
         self.callstack.append((f.qualname, getattr(node, "lineno", None)))
         try:
             if any(isinstance(n, (ast.Yield, ast.YieldFrom)) for n in self.own_nodes(f.node)):
